@@ -3,10 +3,14 @@ import BreezyVerif.Model.C34
 /-!
 C34 driver.  Byte strings as hex (`-` empty), `~` = None, lists comma-separated.
 
-* `rt STRICT id tree parents author atime atz aneg committer ctime ctz cneg enc mergetags extra gpgsig message`
-  extra = `k:v` pairs.  Reply: `I:<err>` (import refused) | `X:<err> <props>` (export raised) |
+* `rt FX STRICT id LK DEC ENC tree parents author atime atz aneg committer ctime ctz cneg enc mergetags extra gpgsig message`
+  extra = `k:v` pairs.  LK DEC ENC are the codec environment for the name in the `encoding` header:
+  LK = what `codecs.lookup` says (`u8|l1|as|ext|unk|bad`, `-` = never looked up), DEC / ENC = finite
+  tables `in:out` of that codec's decode / encode (`out` = hex or `E<err>`); a lookup outside the tables
+  is the error `EnvMiss` (never a default).  Reply: `G:<get_revision_id result> ` followed by
+  `I:<err>` (import refused) | `X:<err> <props>` (export raised) |
   `ok <commit fields> <revid> <codec> <committer> <message> <props>` where props is the rendered property dict and commit fields is the
-  exported commit in the request's field order.
+  exported commit in the request's field order.  FX = code variant (see `importDecode`).
 * `fix text` → `fix_person_identifier` (`E:Value` on ValueError)
 -/
 namespace BreezyVerif.C34
@@ -27,12 +31,52 @@ def showErr : Err → String
   | .unicodeDecode => "UnicodeDecode" | .unknownEncoding => "UnknownEncoding"
   | .unknownHgExtra => "UnknownHgExtra" | .unknownExtra => "UnknownExtra" | .value => "Value"
   | .lookup => "Lookup" | .codecMismatch => "CodecMismatch" | .index => "Index"
-  | .attr => "Attr" | .assert => "Assert"
+  | .attr => "Attr" | .assert => "Assert" | .unicodeEncode => "UnicodeEncode" | .other => "Other"
+  | .envMiss => "EnvMiss" | .irreversible => "Irreversible"
+
+def parseErr (s : String) : Option Err :=
+  if s == "UnicodeDecode" then some .unicodeDecode else if s == "Value" then some .value
+  else if s == "Lookup" then some .lookup else if s == "UnicodeEncode" then some .unicodeEncode
+  else if s == "Other" then some .other else none
+
+def parseLookup (s : String) : Option Lookup :=
+  if s == "u8" then some .utf8 else if s == "l1" then some .latin1 else if s == "as" then some .ascii
+  else if s == "ext" then some .ext else if s == "unk" then some .unknown else if s == "bad" then some .bad
+  else if s == "-" then some .miss else none
+
+/-- one table entry `in:out`, `out` = hex bytes or `E<err>` -/
+def decEntry (s : String) : Option (Bytes × Except Err Bytes) :=
+  match s.splitOn ":" with
+  | [k, v] => do
+    let k ← fromHex k
+    if v.startsWith "E" then
+      let e ← parseErr (v.drop 1).toString
+      pure (k, .error e)
+    else
+      let v ← fromHex v
+      pure (k, .ok v)
+  | _ => none
+
+def tableLookup (t : List (Bytes × Except Err Bytes)) (k : Bytes) : Except Err Bytes :=
+  match t.find? (fun p => p.1 == k) with
+  | some p => p.2
+  | none => .error .envMiss
+
+/-- the environment of one request: the header name as given, `utf-8` and `latin1`
+as Python defines them, nothing else -/
+def mkEnv (hdr : Option Bytes) (lk : Lookup) (dec enc : List (Bytes × Except Err Bytes)) : Env where
+  lookup := fun n =>
+    if hdr = some n ∧ lk ≠ .miss then lk
+    else if n = bs "utf-8" then .utf8
+    else if n = bs "latin1" then .latin1
+    else .miss
+  dec := fun n b => if hdr = some n then tableLookup dec b else .error .envMiss
+  enc := fun n r => if hdr = some n then tableLookup enc r else .error .envMiss
 
 def showPStr (s : PStr) : String := toHex s.bytes
 
 def showCodec : Codec → String
-  | .utf8 => "utf-8" | .latin1 => "latin1" | .ascii => "ascii" | .se => "se"
+  | .utf8 => "utf-8" | .latin1 => "latin1" | .ascii => "ascii" | .se => "se" | .ext _ => "ext"
 
 /-- the property dict, sorted by key, values as hex of their bytes (ints in decimal) -/
 def showProps (p : Props) : String :=
@@ -60,7 +104,7 @@ def showCommit (c : Commit) : String :=
      showOpt c.message]
 
 def handle : List String → String
-  | ["rt", strict, id, tree, parents, author, atime, atz, aneg, committer, ctime, ctz, cneg, enc,
+  | ["rt", fx, strict, id, lk, dec, enc', tree, parents, author, atime, atz, aneg, committer, ctime, ctz, cneg, enc,
       mergetags, extra, gpgsig, message] =>
     match parseBool strict, fromHex id, fromHex tree, (splitList parents).mapM fromHex, fromHex author,
       atime.toInt?, atz.toInt?, parseBool aneg, fromHex committer, ctime.toInt?, ctz.toInt?,
@@ -69,20 +113,27 @@ def handle : List String → String
     | some strict, some id, some tree, some parents, some author, some atime, some atz, some aneg,
       some committer, some ctime, some ctz, some cneg, some enc, some mergetags, some extra,
       some gpgsig, some message =>
-      let c : Commit :=
-        { tree := tree, parents := parents, author := author, authorTime := atime, authorTz := atz,
-          authorNegUtc := aneg, committer := committer, commitTime := ctime, commitTz := ctz,
-          commitNegUtc := cneg, encoding := enc, mergetags := mergetags, extra := extra,
-          gpgsig := gpgsig, message := message }
-      match importCommit strict id c with
-      | .error e => "I:" ++ showErr e
-      | .ok rev =>
-        let tail := toHex rev.revisionId ++ " " ++ showCodec rev.committer.codec ++ " " ++
-          showPStr rev.committer ++ " " ++
-          showPStr rev.message ++ " " ++ showProps rev.props
-        match exportCommit rev c.tree with
-        | .error e => "X:" ++ showErr e ++ " " ++ tail
-        | .ok c2 => "ok " ++ showCommit c2 ++ " " ++ tail
+      match parseBool fx, parseLookup lk, (splitList dec).mapM decEntry, (splitList enc').mapM decEntry with
+      | some fx, some lk, some dec, some enc' =>
+        let env := mkEnv enc lk dec enc'
+        let c : Commit :=
+          { tree := tree, parents := parents, author := author, authorTime := atime, authorTz := atz,
+            authorNegUtc := aneg, committer := committer, commitTime := ctime, commitTz := ctz,
+            commitNegUtc := cneg, encoding := enc, mergetags := mergetags, extra := extra,
+            gpgsig := gpgsig, message := message }
+        let g := match getRevisionId env id c with
+          | .ok r => "G:" ++ toHex r ++ " "
+          | .error e => "G:E" ++ showErr e ++ " "
+        match importCommit env fx strict id c with
+        | .error e => g ++ "I:" ++ showErr e
+        | .ok rev =>
+          let tail := toHex rev.revisionId ++ " " ++ showCodec rev.committer.codec ++ " " ++
+            showPStr rev.committer ++ " " ++
+            showPStr rev.message ++ " " ++ showProps rev.props
+          match exportCommit env rev c.tree with
+          | .error e => g ++ "X:" ++ showErr e ++ " " ++ tail
+          | .ok c2 => g ++ "ok " ++ showCommit c2 ++ " " ++ tail
+      | _, _, _, _ => "bad-op"
     | _, _, _, _, _, _, _, _, _, _, _, _, _, _, _, _, _ => "bad-op"
   | ["fix", t] =>
     match fromHex t with
